@@ -79,6 +79,14 @@ def run(chk):
     cert_props(chk)
     run_certs(chk, ["compute_store"], priority=SHAPES)
 
+    # relational certificate over the THREE real kernels of a problem (props/CERT_kinds.v): the assemble and compute
+    # kernels are the evaluate kernel with statements dropped, under role/taint side conditions; soundness (for ALL
+    # inputs, any fuel, any capacity): assemble builds exactly evaluate's structure, compute run on that structure writes
+    # exactly evaluate's values (or stops with EOutOfBounds), whatever the value block held before (re-valued re-runs)
+    from props._certs_kinds import kinds_props, run_kinds_cert
+    kinds_props(chk)
+    run_kinds_cert(chk, priority=SHAPES)
+
 
 def replay(chk, payload):
     print(json.dumps(payload, indent=1)[:4000])
